@@ -272,6 +272,12 @@ def make_function(ctx: wire.Ctx, case: dict, rec: List[Any]) -> Tuple[Any, Dict[
         kw["ignore_return"] = True
     if overrides:
         kw["overrides"] = overrides
+    # history: the same option objects (the caller's `ignore_args` set, `overrides` dict) have already been used to
+    # decorate this function once; what the decorator builds from them the second time must be the same
+    try:
+        validate_signature(f, **kw)
+    except Exception:  # noqa
+        pass
     wrapped = validate_signature(f, **kw)
     return (f, wrapped), vals
 
